@@ -1,0 +1,229 @@
+//go:build verif
+
+package main
+
+import (
+	"encoding/hex"
+	"fmt"
+	"mltwist/pkg/expr"
+	"strconv"
+	"strings"
+)
+
+// Expressions are written as prefix token streams:
+//
+//	c:<hex bytes>            Const
+//	b <op> <w> A B           Binary
+//	l <w> A B T F            Less
+//	m <key> <w> A            MemLoad
+//	r <key> <w>              RegLoad
+//
+// and effects as
+//
+//	ms <key> <w> V A         MemStore
+//	rs <key> <w> V           RegStore
+
+var binOpNames = map[expr.BinaryOp]string{
+	expr.Add: "add", expr.Lsh: "lsh", expr.Rsh: "rsh",
+	expr.Mul: "mul", expr.Div: "div", expr.Nand: "nand",
+}
+
+var binOpByName = func() map[string]expr.BinaryOp {
+	m := make(map[string]expr.BinaryOp)
+	for k, v := range binOpNames {
+		m[v] = k
+	}
+	return m
+}()
+
+func (t *tokens) width() expr.Width {
+	n, err := strconv.ParseUint(t.next(), 10, 8)
+	if err != nil {
+		panic(parseError("bad width"))
+	}
+	return expr.Width(n)
+}
+
+func (t *tokens) uint() uint64 {
+	n, err := strconv.ParseUint(t.next(), 10, 64)
+	if err != nil {
+		panic(parseError("bad uint"))
+	}
+	return n
+}
+
+func (t *tokens) int() int {
+	n, err := strconv.ParseInt(t.next(), 10, 64)
+	if err != nil {
+		panic(parseError("bad int"))
+	}
+	return int(n)
+}
+
+func (t *tokens) hex() []byte {
+	s := t.next()
+	if s == "-" {
+		return []byte{}
+	}
+	bs, err := hex.DecodeString(s)
+	if err != nil {
+		panic(parseError("bad hex"))
+	}
+	return bs
+}
+
+func (t *tokens) key() expr.Key { return expr.NewKey(t.next()) }
+
+func (t *tokens) binOp() expr.BinaryOp {
+	op, ok := binOpByName[t.next()]
+	if !ok {
+		panic(parseError("bad binary op"))
+	}
+	return op
+}
+
+func (t *tokens) expr() expr.Expr {
+	tok := t.next()
+	switch {
+	case strings.HasPrefix(tok, "c:"):
+		bs, err := hex.DecodeString(tok[2:])
+		if err != nil || len(bs) > 255 {
+			panic(parseError("bad const"))
+		}
+		return expr.NewConst(bs, expr.Width(len(bs)))
+	case tok == "b":
+		op := t.binOp()
+		w := t.width()
+		a := t.expr()
+		b := t.expr()
+		return expr.NewBinary(op, a, b, w)
+	case tok == "l":
+		w := t.width()
+		a := t.expr()
+		b := t.expr()
+		tr := t.expr()
+		f := t.expr()
+		return expr.NewLess(a, b, tr, f, w)
+	case tok == "m":
+		k := t.key()
+		w := t.width()
+		a := t.expr()
+		return expr.NewMemLoad(k, a, w)
+	case tok == "r":
+		k := t.key()
+		w := t.width()
+		return expr.NewRegLoad(k, w)
+	default:
+		panic(parseError("bad expression token " + tok))
+	}
+}
+
+func (t *tokens) effect() expr.Effect {
+	switch tok := t.next(); tok {
+	case "ms":
+		k := t.key()
+		w := t.width()
+		v := t.expr()
+		a := t.expr()
+		return expr.NewMemStore(v, k, a, w)
+	case "rs":
+		k := t.key()
+		w := t.width()
+		v := t.expr()
+		return expr.NewRegStore(v, k, w)
+	default:
+		panic(parseError("bad effect token " + tok))
+	}
+}
+
+func fmtHex(bs []byte) string {
+	if len(bs) == 0 {
+		return "-"
+	}
+	return hex.EncodeToString(bs)
+}
+
+func writeExpr(sb *strings.Builder, ex expr.Expr) {
+	switch e := ex.(type) {
+	case expr.Const:
+		sb.WriteString("c:")
+		sb.WriteString(hex.EncodeToString(e.Bytes()))
+	case expr.Binary:
+		name, ok := binOpNames[e.Op()]
+		if !ok {
+			name = fmt.Sprintf("op%d", e.Op())
+		}
+		fmt.Fprintf(sb, "b %s %d ", name, e.Width())
+		writeExpr(sb, e.Arg1())
+		sb.WriteByte(' ')
+		writeExpr(sb, e.Arg2())
+	case expr.Less:
+		fmt.Fprintf(sb, "l %d ", e.Width())
+		writeExpr(sb, e.Arg1())
+		sb.WriteByte(' ')
+		writeExpr(sb, e.Arg2())
+		sb.WriteByte(' ')
+		writeExpr(sb, e.ExprTrue())
+		sb.WriteByte(' ')
+		writeExpr(sb, e.ExprFalse())
+	case expr.MemLoad:
+		fmt.Fprintf(sb, "m %s %d ", e.Key(), e.Width())
+		writeExpr(sb, e.Addr())
+	case expr.RegLoad:
+		fmt.Fprintf(sb, "r %s %d", e.Key(), e.Width())
+	case nil:
+		sb.WriteString("nil")
+	default:
+		fmt.Fprintf(sb, "unknown:%T", ex)
+	}
+}
+
+func fmtExpr(ex expr.Expr) string {
+	var sb strings.Builder
+	writeExpr(&sb, ex)
+	return sb.String()
+}
+
+func fmtExprs(exs []expr.Expr) string {
+	var sb strings.Builder
+	fmt.Fprintf(&sb, "%d", len(exs))
+	for _, e := range exs {
+		sb.WriteByte(' ')
+		writeExpr(&sb, e)
+	}
+	return sb.String()
+}
+
+func fmtEffect(ef expr.Effect) string {
+	var sb strings.Builder
+	switch e := ef.(type) {
+	case expr.MemStore:
+		fmt.Fprintf(&sb, "ms %s %d ", e.Key(), e.Width())
+		writeExpr(&sb, e.Value())
+		sb.WriteByte(' ')
+		writeExpr(&sb, e.Addr())
+	case expr.RegStore:
+		fmt.Fprintf(&sb, "rs %s %d ", e.Key(), e.Width())
+		writeExpr(&sb, e.Value())
+	default:
+		fmt.Fprintf(&sb, "unknown:%T", ef)
+	}
+	return sb.String()
+}
+
+func fmtEffects(efs []expr.Effect) string {
+	var sb strings.Builder
+	fmt.Fprintf(&sb, "%d", len(efs))
+	for _, e := range efs {
+		sb.WriteByte(' ')
+		sb.WriteString(fmtEffect(e))
+	}
+	return sb.String()
+}
+
+func fmtBool(b bool) string {
+	if b {
+		return "true"
+	}
+	return "false"
+}
